@@ -26,6 +26,7 @@ def run(ctx):
     ctx.do(D.rule_lk4)
     ctx.do(D.rule_cast1, ["geometry_tools/utils/core.py"])
     ctx.do(D.rule_raw1)
+    ctx.do(D.rule_astype1, ["geometry_tools/coxeter.py", "geometry_tools/utils/core.py", "geometry_tools/hyperbolic.py", "geometry_tools/projective.py"])
     ctx.do(NP.rule_viewaug1, ["geometry_tools/utils/core.py"])
     ctx.do(D.rule_t1, ENTRIES,
               "rotations, sl2_iso(list), regular_polygon and the README "
